@@ -292,6 +292,10 @@ def check_lastfail(ctx, fb, rule):
                 for n in f.own_nodes():
                     if n['k'] == 'BinaryOperator' and n['op'] == '&':
                         mask = f.sn(n['ch'][1]).get('v')
+        if val is None and None not in (mul, sub, cmpv, mask):
+            ctx.report(rule, key, fs[0].where, 'the value branch of Any<LastFail>::Consume does not store a done value '
+                       '(exchange of an odd constant): a second value, or the last failure, sets the promise again')
+            continue
         if None in (mul, sub, cmpv, val, mask):
             ctx.broken('Any<LastFail>: packed counter idiom not recognised (mul=%s sub=%s cmp=%s val=%s mask=%s)' % (
                 mul, sub, cmpv, val, mask))
@@ -470,3 +474,101 @@ def check_any_forward(ctx, fb, rule):
                        'instantiation: ' + f.full[:300])
             break
     return n
+
+
+# ---------------------------------------------------------------------------------------------------------------------
+# R-OUTCOME: the output is the outcome of an input
+def check_outcome(ctx, fb, rule, strategy_names):
+    """Every Promise::Set in a strategy hands on something taken from an input: in Consume an accessor
+    (Value / Error / Exception) of the consumed Result, in the destructor an accessor of the saved failure or the
+    collected values (a member).  A Set of anything else (a fresh StopTag, a default value) replaces the input's
+    outcome; that the accessor matches the state is R-ACCESSOR's business."""
+    n = 0
+    for cls, fs in sorted(strategies(fb, strategy_names).items()):
+        for f in fs:
+            sets = [c for c in f.calls() if c['cn'] == SET]
+            if not sets:
+                continue
+            key = 'R-OUTCOME %s::%s' % (f.clsq, f.n)
+            ctx.instance(rule, key + ' :: ' + f.full[:140], dict(sets=len(sets)))
+            n += 1
+            for c in sets:
+                if not c.get('args'):
+                    continue  # Set() of a void promise: the value is Unit
+                i = c['args'][0]
+                for _ in range(8):
+                    i = f.strip(i)
+                    m = f.nodes[i]
+                    if m['k'] == 'CallExpr' and m.get('cn') in ('std::move', 'std::forward', 'std::as_const') and \
+                            m.get('args'):
+                        i = m['args'][0]
+                        continue
+                    if m['k'] in ('MaterializeTemporaryExpr', 'CXXBindTemporaryExpr', 'ExprWithCleanups') and \
+                            m.get('ch'):
+                        i = m['ch'][0]
+                        continue
+                    break
+                m = f.nodes[i]
+                src = None
+                if m['k'] == 'CXXMemberCallExpr' and m['cn'].split('::')[-1] in ('Value', 'Error', 'Exception', 'Ok') \
+                        and m.get('obj') is not None:
+                    o = f.nodes[f.resolve(m['obj'])] if f.resolve(m['obj']) is not None else None
+                    for _ in range(6):
+                        if o is not None and o['k'] == 'CallExpr' and o.get('cn') in (
+                                'std::move', 'std::forward', 'std::as_const') and o.get('args'):
+                            o = f.sn(o['args'][0])
+                            continue
+                        if o is not None and o['k'] == 'DeclRefExpr' and o.get('id') in f.single_defs:
+                            # const auto& result = core.Get();  ->  the input core's stored Result
+                            o = f.nodes[f.resolve(o['i'])] if f.resolve(o['i']) is not None else None
+                            continue
+                        break
+                    if o is not None and o['k'] == 'DeclRefExpr' and o.get('id') in f.params:
+                        src = 'input'
+                    elif o is not None and o['k'] == 'MemberExpr':
+                        src = 'member'
+                    elif o is not None and o['k'] == 'CXXMemberCallExpr':
+                        src = 'input'  # core.Get() / Retire() of an input core
+                elif m['k'] == 'MemberExpr' or (m['k'] == 'DeclRefExpr' and m.get('id') not in (None,)):
+                    src = 'member'  # the collected values / a local built from them
+                elif m['k'] in ('CXXConstructExpr', 'CXXTemporaryObjectExpr') and m.get('args') and \
+                        f.sn(m['args'][0]) is not None and f.sn(m['args'][0]).get('dn') == 'std::in_place':
+                    src = 'member'  # Result{std::in_place}: the value of a void output
+                if src is None:
+                    ctx.report(rule, key, f.loc(c), 'the output is set to %s, which is not taken from an input (an '
+                               'accessor of the consumed Result, the saved failure or the collected values): the '
+                               'combinator completes with an outcome none of its inputs had' % f.text(c['args'][0])[:60],
+                               'instantiation: ' + f.full[:300])
+                    break
+    return n
+
+
+def check_firstvalue(ctx, fb, rule):
+    """Any<FirstFail>: a value wins unless a value has won already — the value branch elects itself by writing the
+    value state with an RMW and wins iff the OLD state differs from the value state (a failure saved earlier must not
+    keep a later value out)."""
+    cls = [c for c in strategies(fb, ('yaclib::when::Any',)).items() if c[1][0].cta and c[1][0].cta[0] in (
+        '1', 'yaclib::FailPolicy::FirstFail')]
+    for name, fs in cls:
+        for f in fs:
+            if f.n != 'Consume':
+                continue
+            key = 'R-FIRSTVALUE yaclib::when::Any<FirstFail>::Consume'
+            ctx.instance(rule, key + ' :: ' + f.full[:140], None)
+            ex = [n for n in f.own_nodes() if n.get('cn', '').endswith('::exchange') and n.get('args')]
+            if len(ex) != 1:
+                ctx.broken('Any<FirstFail>: value election idiom not recognised (%d exchanges)' % len(ex))
+            stored = f.sn(ex[0]['args'][0]).get('v')
+            cmpv = compared_constant(f, ex[0]['i'])
+            par = f.parents.get(ex[0]['i'])
+            while par is not None and f.nodes[par]['k'] in ('ImplicitCastExpr', 'ParenExpr'):
+                par = f.parents.get(par)
+            op = f.nodes[par]['op'] if par is not None and f.nodes[par]['k'] == 'BinaryOperator' else None
+            if stored is None or cmpv is None or op is None:
+                ctx.broken('Any<FirstFail>: value election idiom not recognised (stored=%s compared=%s)' % (stored,
+                                                                                                          cmpv))
+            if not (cmpv == stored and op == '!='):
+                ctx.report(rule, key, f.loc(ex[0]), 'the value branch stores state %s and wins when the old state %s %s: '
+                           'under FirstFail the first VALUE wins even if a failure was saved before it (the old state '
+                           'must only be compared with the value state itself)' % (stored, op, cmpv),
+                           'instantiation: ' + f.full[:300])
